@@ -80,7 +80,10 @@ Record stk := {
 }.
 
 Inductive pstatus := PDeposit | PVoting | PClosed.
-Record proposal := { p_status : pstatus; p_proposer : addr; p_total : Z; p_dep_end : time; p_vote_end : time }.
+Record proposal := { p_status : pstatus; p_proposer : addr; p_total : Z; p_dep_end : time; p_vote_end : time;
+  p_vp : time;          (* the voting period that applies to this proposal: expedited / per-message custom / default *)
+  p_min : Z;            (* the deposit that opens its voting period (expedited / per-message ratio / default) *)
+  p_exp : bool          (* expedited *) }.
 
 Record govst := {
   props     : list (Z * proposal);
@@ -448,30 +451,42 @@ Definition drop_inactive (s : state) (x : time * Z) : state :=
     settle_deposits pid (burn_prevote (cfg s)) (set_gov s g1)
   end.
 
-(* expired voting period: tally (deletes the votes), refund/burn, close *)
-Definition close_active (burns : list Z) (s : state) (x : time * Z) : state :=
+(* expired voting period: tally (deletes the votes); a FAILED EXPEDITED proposal (pid in `converts`, decided by the real
+   tally) is converted to a regular one: deposits kept, voting end = voting start + the default voting period, queued
+   again under the new end time, still open; otherwise refund/burn and close *)
+Definition close_active (burns converts : list Z) (s : state) (x : time * Z) : state :=
   let pid := snd x in
   let g := gov s in
   match sget Z.eqb pid (props g) with
   | None => s
   | Some p =>
-    let g1 := {| props := sset Z.eqb pid {| p_status := PClosed; p_proposer := p_proposer p; p_total := p_total p;
-                                           p_dep_end := p_dep_end p; p_vote_end := p_vote_end p |} (props g);
-                 deposits := deposits g;
-                 votes := filter (fun kv => negb (fst (fst kv) =? pid)) (votes g);
-                 inactiveq := inactiveq g;
-                 activeq := qdel (p_vote_end p) pid (activeq g);
-                 next_pid := next_pid g |} in
-    settle_deposits pid (memZ pid burns) (set_gov s g1)
+    let votes' := filter (fun kv : (Z * Z) * unit => negb (fst (fst kv) =? pid)) (votes g) in
+    if memZ pid converts
+    then
+      let vend := (p_vote_end p - p_vp p) + voting_period (cfg s) in
+      set_gov s {| props := sset Z.eqb pid {| p_status := PVoting; p_proposer := p_proposer p; p_total := p_total p;
+                                            p_dep_end := p_dep_end p; p_vote_end := vend;
+                                            p_vp := voting_period (cfg s); p_min := p_min p; p_exp := false |} (props g);
+                   deposits := deposits g; votes := votes'; inactiveq := inactiveq g;
+                   activeq := qdel (p_vote_end p) pid (activeq g) ++ [(vend, pid)];
+                   next_pid := next_pid g |}
+    else
+      let g1 := {| props := sset Z.eqb pid {| p_status := PClosed; p_proposer := p_proposer p; p_total := p_total p;
+                                             p_dep_end := p_dep_end p; p_vote_end := p_vote_end p;
+                                             p_vp := p_vp p; p_min := p_min p; p_exp := p_exp p |} (props g);
+                   deposits := deposits g; votes := votes'; inactiveq := inactiveq g;
+                   activeq := qdel (p_vote_end p) pid (activeq g);
+                   next_pid := next_pid g |} in
+      settle_deposits pid (memZ pid burns) (set_gov s g1)
   end.
 
-Definition gov_endblock (t : time) (burns : list Z) (s : state) : state :=
+Definition gov_endblock (t : time) (burns converts : list Z) (s : state) : state :=
   let s1 := fold_left drop_inactive (filter (fun x => fst x <=? t) (inactiveq (gov s))) s in
-  fold_left (close_active burns) (filter (fun x => fst x <=? t) (activeq (gov s1))) s1.
+  fold_left (close_active burns converts) (filter (fun x => fst x <=? t) (activeq (gov s1))) s1.
 
 (* the block with time t ends; the next block's transactions run at time `next` *)
-Definition end_block (t next : time) (burns : list Z) (s : state) : state :=
-  let s1 := gov_endblock t burns (set_clock s t (height s)) in
+Definition end_block (t next : time) (burns converts : list Z) (s : state) : state :=
+  let s1 := gov_endblock t burns converts (set_clock s t (height s)) in
   let s2 := staking_endblock t s1 in
   set_clock s2 next (height s + 1).
 
@@ -489,13 +504,13 @@ Definition add_deposit (pid : Z) (a : addr) (amt : Z) (s : state) : outcome stat
       else
         let s1 := pay a (gov_acc (cfg s)) d amt s in
         let total := p_total p + amt in
-        let activate := match st with PDeposit => min_deposit (cfg s) <=? total | _ => false end in
-        let vend := now s + voting_period (cfg s) in
+        let activate := match st with PDeposit => p_min p <=? total | _ => false end in
+        let vend := now s + p_vp p in
         let p' := if activate
                   then {| p_status := PVoting; p_proposer := p_proposer p; p_total := total;
-                          p_dep_end := p_dep_end p; p_vote_end := vend |}
+                          p_dep_end := p_dep_end p; p_vote_end := vend; p_vp := p_vp p; p_min := p_min p; p_exp := p_exp p |}
                   else {| p_status := st; p_proposer := p_proposer p; p_total := total;
-                          p_dep_end := p_dep_end p; p_vote_end := p_vote_end p |} in
+                          p_dep_end := p_dep_end p; p_vote_end := p_vote_end p; p_vp := p_vp p; p_min := p_min p; p_exp := p_exp p |} in
         let old := match sget k2_eqb (pid, a) (deposits g) with Some x => x | None => 0 end in
         Ok (set_gov s1 {| props := sset Z.eqb pid p' (props g);
                           deposits := sset k2_eqb (pid, a) (old + amt) (deposits g);
@@ -506,11 +521,14 @@ Definition add_deposit (pid : Z) (a : addr) (amt : Z) (s : state) : outcome stat
     end
   end.
 
-Definition submit_proposal (a : addr) (amt : Z) (s : state) : outcome state :=
+(* exp / vp / mind: expedited flag, and the voting period and opening deposit the real keeper assigns to this
+   proposal's message type (GetCustomMsgVotingPeriod, GetMinDepositAmountFromProposalMsgs) *)
+Definition submit_proposal (a : addr) (amt : Z) (exp : bool) (vp : time) (mind : Z) (s : state) : outcome state :=
   let g := gov s in
   let pid := next_pid g in
   let dend := now s + max_dep_period (cfg s) in
-  let p := {| p_status := PDeposit; p_proposer := a; p_total := 0; p_dep_end := dend; p_vote_end := 0 |} in
+  let p := {| p_status := PDeposit; p_proposer := a; p_total := 0; p_dep_end := dend; p_vote_end := 0;
+              p_vp := vp; p_min := mind; p_exp := exp |} in
   let s1 := set_gov s {| props := sset Z.eqb pid p (props g); deposits := deposits g; votes := votes g;
                          inactiveq := inactiveq g ++ [(dend, pid)]; activeq := activeq g; next_pid := pid + 1 |} in
   match add_deposit pid a amt s1 with
@@ -557,8 +575,8 @@ Section Ops.
 
   Inductive op :=
   | OMigrate (from to : addr) (sg : option sigT)
-  | OEndBlock (t next : time) (burns : list Z)
-  | OSubmit (a : addr) (amt : Z)
+  | OEndBlock (t next : time) (burns converts : list Z)
+  | OSubmit (a : addr) (amt : Z) (exp : bool) (vp : time) (mind : Z)
   | ODeposit (a : addr) (pid amt : Z)
   | OVote (a : addr) (pid : Z)
   | OExportImport (h : Z).
@@ -570,8 +588,8 @@ Section Ops.
   Definition step (s : state) (o : op) : state :=
     match o with
     | OMigrate f t sg => keep s (migrate_tx sigT recover s f t sg)
-    | OEndBlock t n b => end_block t n b s
-    | OSubmit a amt => keep s (submit_proposal a amt s)
+    | OEndBlock t n b c => end_block t n b c s
+    | OSubmit a amt x vp m => keep s (submit_proposal a amt x vp m s)
     | ODeposit a pid amt => keep s (add_deposit pid a amt s)
     | OVote a pid => keep s (cast_vote a pid s)
     | OExportImport h => export_import h s
